@@ -66,6 +66,12 @@ func (f *CSVFormatter) writeValue(s string) {
 }
 
 func (f *CSVFormatter) prepareLine(line interface{}) map[string]interface{} {
+	// An accessor like .Birth returns a nil node for the individuals that do
+	// not have one. There is nothing to put in the columns of such a line.
+	if gedcom.IsNil(line) {
+		return nil
+	}
+
 	if m, ok := line.(gedcom.ObjectMapper); ok {
 		return m.ObjectMap()
 	}
